@@ -461,6 +461,12 @@ def overflow_flag(ev, st, base, a, b, signed):
             return T.FALSE
         if ra[1] < rb[0]:
             return T.TRUE
+        if st is not None and st.assume:
+            lt = T.ult(a, b)  # a - b wraps exactly when a < b: the path may have tested that (`if a >= b { a - b }`)
+            if T.bnot(lt) in st.assume or T.ult(b, a) in st.assume:
+                return T.FALSE
+            if lt in st.assume:
+                return T.TRUE
     else:
         if ra[1] * rb[1] <= m:
             return T.FALSE
@@ -1039,6 +1045,10 @@ def eq_values(ev, st, a, b):
 
 @prim("core::array::equality::<impl core::cmp::PartialEq<[U; N]> for [T; N]>::eq",
       "core::slice::cmp::<impl core::cmp::PartialEq<[U]> for [T]>::eq",
+      "core::array::equality::<impl core::cmp::PartialEq<[U; N]> for [T]>::eq",
+      "core::array::equality::<impl core::cmp::PartialEq<[U]> for [T; N]>::eq",
+      "core::array::equality::<impl core::cmp::PartialEq<&[U]> for [T; N]>::eq",
+      "core::array::equality::<impl core::cmp::PartialEq<[U; N]> for &[T]>::eq",
       "core::cmp::impls::<impl core::cmp::PartialEq<&B> for &A>::eq",
       "core::cmp::impls::<impl core::cmp::PartialEq<&mut B> for &mut A>::eq")
 def p_arr_eq(ev, st, ctx):
@@ -1047,6 +1057,8 @@ def p_arr_eq(ev, st, ctx):
 
 @prim("core::array::equality::<impl core::cmp::PartialEq<[U; N]> for [T; N]>::ne",
       "core::slice::cmp::<impl core::cmp::PartialEq<[U]> for [T]>::ne",
+      "core::array::equality::<impl core::cmp::PartialEq<[U; N]> for [T]>::ne",
+      "core::array::equality::<impl core::cmp::PartialEq<[U]> for [T; N]>::ne",
       "core::cmp::impls::<impl core::cmp::PartialEq<&B> for &A>::ne")
 def p_arr_ne(ev, st, ctx):
     return T.bnot(eq_values(ev, st, ctx.args[0], ctx.args[1]))
@@ -1810,6 +1822,42 @@ def p_nonzero_new(ev, st, ctx):
 @prim("core::num::NonZero::<T>::get")
 def p_nonzero_get(ev, st, ctx):
     return ctx.args[0]
+
+
+@prim("core::mem::take")
+def p_mem_take(ev, st, ctx):
+    r = ctx.args[0]
+    old = ev.load(st, r)
+    if isinstance(old, T.T):
+        ev.store(st, r, T.const(0, old.w))  # Default of bool and of every integer type
+    elif isinstance(old, EnumV) and set(old.payloads) <= {0, 1} and 0 in old.payloads and old.payloads[0] == ():
+        ev.store(st, r, NONE)  # Option<T>
+    else:
+        raise Unsupported("mem::take of %r" % (old,))
+    return old
+
+
+@prim("<T as core::convert::Into<U>>::into", "<T as core::convert::From<T>>::from")
+def p_into(ev, st, ctx):
+    """Into for integer types (the blanket impl over From): widening by zero- or sign-extension; identity for T -> T"""
+    a = ctx.args[0]
+    if not isinstance(a, T.T):
+        dt = ev.tys[ctx.dest_ty]
+        st_ = ev.tys[ctx.argtys[0]] if ctx.argtys and ctx.argtys[0] is not None else None
+        if st_ is not None and st_.get("s") == dt.get("s"):
+            return a
+        raise Unsupported("Into::into of %r" % (a,))
+    w = ev.scalar_width(ctx.dest_ty)
+    if w is None:
+        raise Unsupported("Into::into to a non-scalar")
+    if w == a.w:
+        return a
+    if w < a.w:
+        raise Unsupported("narrowing Into")
+    src = ev.tys[ctx.argtys[0]] if ctx.argtys and ctx.argtys[0] is not None else None
+    src = ev.tys[ev.strip_newtypes(ctx.argtys[0])] if src is not None else None
+    signed = bool(src and src.get("k") == "int" and src.get("signed"))
+    return T.sext(a, w) if signed else T.zext(a, w)
 
 
 @prim("core::mem::replace")
